@@ -22,10 +22,14 @@ Binding, accepting side: acceptOnce lives in runTransfer, so the real
 and abandons connections to the receiver's candidates in the server-visible
 order of the TLC behaviour and then runs the real sender-side authentication
 on the connection it kept; the receiver's hook trace shows the connection it
-committed to.
+committed to.  Finally whole sessions are run with the real host and join
+binaries on this multi-address host (5 candidates); outcome, duration and the
+hook traces of both processes (validated with TLC against SessionTrace.tla:
+one winner, no swap of the primary after authentication) are judged.
 """
 import os
 import vlib
+import e2e_common
 
 PROP = "C09"
 INV = ['OneConnection', 'SameConnection', 'NoSplit']
@@ -54,17 +58,21 @@ def run(tier, seed):
     re_ = vlib.run_tlc('ConnRace', dict(constants=dict(fixed, Track=True), view='View', action_constraint='Emit'), workers=8, edges_path=ep, timeout=900)
     srv = vlib.build_repo_bin('./cmd/thruserv', 'thruserv')
     thru = vlib.build_repo_bin('./cmd/thru', 'thru')
-    dial = vlib.run_vh_sharded(['connrace-dial', '-edges', ep, '-max-allfail', '0' if quick else '1'], 12, timeout=2400)
+    dial = vlib.run_vh_sharded(['connrace-dial', '-edges', ep, '-max-allfail', '0' if quick else '1', '-free', '12' if quick else '40'], 12, timeout=2400)
     acc = vlib.run_vh_sharded(['connrace-accept', '-edges', ep, '-thruserv', srv, '-thru', thru, '-max', '7' if quick else '0'], 8, timeout=3000)
     res = vlib.merge_results([dial, acc])
     for viol in res['violations']:
         v.violation(viol['sig'], viol.get('replay'))
+    # whole sessions with both real binaries on this multi-address host; traces validated against SessionTrace.tla
+    sess = e2e_common.run_sessions(8 if quick else 48, seed, work)
+    e2e_common.report(v, PROP, sess)
     v.coverage = dict(states=r['distinct'], transitions=r['generated'], depth=r['depth'], constants=dict(K=3),
                       traces_validated_against_impl=res['behaviours'],
                       replay=dict(dial_schedules=dial['behaviours'], distinct_dial_projections=dial['distinct'],
                                   accept_scripts=acc['behaviours'], distinct_accept_scripts=acc['distinct'],
                                   dial_outcomes=dial['extra'].get('outcomes'), accept_outcomes=acc['extra'].get('outcomes'),
                                   candidate_addresses=dial['extra'].get('candidate_ips')),
+                      whole_sessions=dict(sessions=sess['res']['behaviours'], outcomes=sess['res']['extra'].get('outcomes'), trace_lines_validated=sess['lines']),
                       liveness=dict(property='Converges', states=rl['distinct']),
                       negative_controls_refuted=controls, samples=res['samples'][:8])
     v.assumptions = ["the order of client-side completions is controlled at the ice.dial.done hook (after the handshake, before the offer); "
